@@ -320,8 +320,14 @@ def r_cellpos(ctx, rep):
         found = False
         for n in walk_k(fn.body, "Let"):
             init = unwrap(n.get("init")) if n.get("init") is not None else None
-            if not init or init.get("k") != "If" or unwrap(init["cond"]).get("k") != "LetExpr":
+            # `if let Some(r) = attr { A } else { B }` (normalised to a match) or `match attr { Some(r) => A, None => B }`
+            if not init or init.get("k") != "Match" or len(init.get("arms", [])) != 2:
                 continue
+            some = [a for a in init["arms"] if a["pat"].get("k") == "TupleStruct" and (a["pat"].get("res", {}).get("def") or "").endswith("Option::Some")]
+            other = [a for a in init["arms"] if a not in some]
+            if len(some) != 1 or len(other) != 1:
+                continue
+            init = {"then": some[0]["body"], "els": other[0]["body"]}
             if not _calls_fn(init["then"], "xlsx::get_row_column"):
                 continue
             found = True
@@ -856,6 +862,8 @@ def _pattern_sources(fn):
         elif k == "Match":
             for a in n["arms"]:
                 p = a["pat"]
+                if n.get("src") != "TryDesugar":
+                    pair(p, n["scrut"])
                 if p.get("k") == "TupleStruct":
                     v = norm(p.get("res", {}).get("ctor_of") or p.get("res", {}).get("def"))
                     for sp in p.get("pats", []):
@@ -1640,28 +1648,26 @@ def r_ovbachunk(ctx, rep):
         rep.anchor_missing("R-OVBACHUNK", "cfb::decompress_stream")
         return
     found = False
-    for lp in walk_k(fn.body, "Loop"):
-        if lp.get("src") not in ("loop", "Loop", None) and lp.get("src") != "loop":
-            pass
-        blk = lp.get("body") or {}
-        stmts = blk.get("stmts") or []
-        flag_i = None
-        for i, s_ in enumerate(stmts):
-            if s_.get("k") == "Let" and s_.get("init") is not None and unwrap(s_["init"]).get("k") == "Index" and (s_["pat"].get("name") or "").startswith("bit"):
-                flag_i = i
-        if flag_i is None:
+    for lp, lanc in walk_anc(fn.body):
+        if lp.get("k") != "Loop":
             continue
-        found = True
-        guard = None
-        for s_ in stmts[:flag_i]:
-            e = unwrap(s_.get("e") or {})
-            if e.get("k") == "If":
-                names = {path_local(p)[0] for p in walk_k(e["cond"], "Path") if path_local(p)}
-                if {"chunk_len", "chunk_size"} <= names and any(x.get("k") == "Break" for x in walk(e["then"])):
-                    guard = e
-        if guard is not None:
-            rep.holds("R-OVBACHUNK", key, loc(guard), "the flag byte is read only after `chunk_len` was tested against `chunk_size`")
-        else:
-            rep.violation("R-OVBACHUNK", key, loc(stmts[flag_i]), "the flag byte of the next token group is read without first testing whether the chunk is exhausted (chunk_len > chunk_size): when a chunk ends exactly on a full flag group, the next chunk's header byte is consumed as a flag byte and the container is misparsed (signature assertion fails)")
+        for st, anc in walk_anc(lp.get("body") or {}):
+            if not (st.get("k") == "Let" and st.get("init") is not None and unwrap(st["init"]).get("k") == "Index" and (st["pat"].get("name") or "").startswith("bit")):
+                continue
+            if any(a.get("k") == "Loop" for a in anc):
+                continue          # belongs to an inner loop
+            found = True
+            guard = None
+            # (a) nested form: the read sits in the continuation of `if <chunk exhausted> { break }`
+            for a in anc:
+                if a.get("k") == "If":
+                    names = {path_local(p)[0] for p in walk_k(a["cond"], "Path") if path_local(p)}
+                    leaving, cont = (a["then"], a.get("els")) if a.get("src") != "EarlyExitNeg" else (a.get("els"), a["then"])
+                    if {"chunk_len", "chunk_size"} <= names and leaving is not None and any(x.get("k") == "Break" for x in walk(leaving)) and cont is not None and any(x is st for x in walk(cont)):
+                        guard = a
+            if guard is not None:
+                rep.holds("R-OVBACHUNK", key, loc(guard), "the flag byte is read only after `chunk_len` was tested against `chunk_size`")
+            else:
+                rep.violation("R-OVBACHUNK", key, loc(st), "the flag byte of the next token group is read without first testing whether the chunk is exhausted (chunk_len > chunk_size): when a chunk ends exactly on a full flag group, the next chunk's header byte is consumed as a flag byte and the container is misparsed (signature assertion fails)")
     if not found:
         rep.anchor_missing("R-OVBACHUNK", "flag-byte read (`let bit_flags = s[i]`) in the chunk loop of decompress_stream")
